@@ -44,7 +44,7 @@ func parseTrace(tr string) ([]traceEv, error) {
 			out = append(out, traceEv{Kind: "shift", Name: normName(m[1]), State: st})
 			continue
 		}
-		return nil, fmt.Errorf("line not understood: %q", ln)
+		return out, fmt.Errorf("line not understood: %q", ln)
 	}
 	return out, nil
 }
@@ -160,6 +160,11 @@ func execC17(ctx *Ctx, in *Input) *Result {
 				}
 				got, err := parseTrace(pr.Trace)
 				if err != nil {
+					if len(got) == 0 && strings.TrimSpace(pr.Trace) != "" && !strings.Contains(pr.Trace, "Shift ") && !strings.Contains(pr.Trace, "look ahead ") {
+						// not one line looks like a trace line: the trace format changed, the harness cannot judge it
+						res.Harness = "trace format not recognised: " + firstLines(pr.Trace, 3)
+						return res
+					}
 					return fail("trace-unreadable", "%v", err)
 				}
 				want, verdict := expectedTrace(sc, f)
